@@ -241,6 +241,44 @@ def s5(ctx, rep, clause="S5"):
                 witness=cfg.describe_path(p) if p else None)
 
 
+def s5c(ctx, rep, clause="S5"):
+    """order inside one iteration of Tuner._update_running_trials: a status that is recorded or announced is the final one - the
+    record `done_trials[id] = (trial, status)` and the completion callbacks come after every override of `status` that can still
+    happen in that iteration (STOP -> stopped, PAUSE -> paused, 'paused overrides completed')"""
+    P = ctx.P
+    f = P.method("Tuner", "_update_running_trials")
+    cfg = cfg_of(f)
+    # one iteration = from an outermost loop's head back to it (inner loops, e.g. over the callbacks, are part of the iteration)
+    fors = [n for n in cfg.nodes if n.kind == "for"]
+    heads = {n.id for n in fors if not any(o is not n and any(y is n.ast for s_ in o.ast.body for y in ast.walk(s_)) for o in fors)}
+    rvn = [r.value.id for r in returns_of(f) if isinstance(r.value, ast.Name)]
+    if len(set(rvn)) != 1:
+        raise AnchorError("Tuner._update_running_trials does not return its record of finished trials")
+    sv_loops = [x for x in walk_shallow(f.node) if isinstance(x, ast.For)]
+    # the status variable(s): the names bound by the loops whose values are stored into the record
+    recs = [n for n in cfg.nodes if n.kind == "stmt" and isinstance(n.ast, ast.Assign) and isinstance(n.ast.targets[0], ast.Subscript)
+            and U(n.ast.targets[0].value) == rvn[0] and isinstance(n.ast.value, ast.Tuple) and len(n.ast.value.elts) == 2 and isinstance(n.ast.value.elts[1], ast.Name)]
+    if not recs:
+        raise AnchorError("Tuner._update_running_trials: `done_trials[trial_id] = (trial, status)` not found")
+    for n in recs:
+        sv = n.ast.value.elts[1].id
+        later = [m for m in cfg.nodes if m.kind == "stmt" and isinstance(m.ast, ast.Assign) and any(isinstance(t_, ast.Name) and t_.id == sv for t_ in m.ast.targets)
+                 and cfg.path([s_ for s_, l_ in cfg.succ[n.id]], m.id, deleted=heads, skip_labels=("exc",)) is not None]
+        rep.put(not later, clause, "must_precede", f"Tuner._update_running_trials: the status recorded for a finished trial is final ({U(n.ast)[:50]})", f,
+                later[0].ast if later else n.ast, "", f"`{U(later[0].ast) if later else ''}` changes the status after it was recorded in `{rvn[0]}`: the trial is "
+                "counted (and reported to the caller) under the status it had before the scheduler's decision took effect - a stopped trial stays 'in progress', "
+                "is not counted as finished and the stopping criterion is overshot")
+    # the completion callbacks are told about a trial only after 'paused overrides completed' has been decided
+    cb = [n.id for n in cfg.nodes for x in cfg.node_walk(n.id) if isinstance(x, ast.Call) and fn_name(x) == "on_trial_complete" and "callback" in U(x.func.value)]
+    ovr = [m for m in cfg.nodes if m.kind == "stmt" and isinstance(m.ast, ast.Assign) and U(m.ast.value) == "Status.paused"
+           and any(isinstance(t_, ast.Name) for t_ in m.ast.targets)]
+    bad = [(c_, m) for c_ in cb for m in ovr if cfg.path([s_ for s_, l_ in cfg.succ[c_]], m.id, deleted=heads, skip_labels=("exc",)) is not None]
+    if cb:
+        rep.put(not bad, clause, "must_precede", "Tuner._update_running_trials: 'paused overrides completed' is decided before the completion callbacks are told", f,
+                bad[0][1].ast if bad else None, "", "callbacks are told a trial completed which the scheduler paused at that very report (the override to "
+                "'paused' comes after the notification): the trial is announced as completed and later resumed")
+
+
 def s5b(ctx, rep, clause="S5"):
     """the conditions the life-cycle actions are taken under (guard table; found thin by the generic mutation audit)"""
     from .common import require_guard, call_nodes
@@ -570,6 +608,7 @@ def run(ctx, rep, tier="quick"):
     s4(ctx, rep)
     s5(ctx, rep)
     s5b(ctx, rep)
+    s5c(ctx, rep)
     s6(ctx, rep)
     s7(ctx, rep)
     s8(ctx, rep)
